@@ -134,7 +134,11 @@ pub fn run(cases: &[Value], trace: &mut Trace, seed: u64) {
                     (rx.recv_timeout(Duration::from_millis(5000)).ok().flatten(), true)
                 }
             };
-            let _ = t.join();
+            // a call that never returns even after its socket was shut down (e.g. a self-deadlock) must not take the
+            // harness with it: the thread is left behind and the call is recorded as hung
+            if !hang || out.is_some() || t.is_finished() {
+                let _ = t.join();
+            }
             // wait until the server has finished every request this call put on the wire
             let sent = SENT.load(Ordering::SeqCst) - sent0;
             let mut server_stuck = false;
@@ -153,7 +157,7 @@ pub fn run(cases: &[Value], trace: &mut Trace, seed: u64) {
             let stray = if hang { 0 } else { fionread(std::os::unix::io::AsRawFd::as_raw_fd(&fdup)) };
             let (res, ret, args, fdids, lent_ok) = match out {
                 Some(o) => (o.res, o.ret, o.args, o.fdids, o.lent_ok),
-                None => ("panic".to_string(), json!({}), json!({}), vec![], true),
+                None => ((if hang { "stuck" } else { "panic" }).to_string(), json!({}), json!({}), vec![], true),
             };
             let mut handler_vals = handler_vals;
             if op == "get_config" {
